@@ -227,6 +227,21 @@ func crashScenarios(r *rng, tier string) []crashScenario {
 			p.writeStage("t.yaml", &StageRec{Out: []Art{{Path: "other.txt"}}})
 			p.dud("", "stage", "add", "t.yaml")
 		}),
+		mk("stage add of three stages at once", []string{"stage", "add", "t.yaml", "u.yaml", "v.yaml"}, nil, func(p *Project, r *rng) {
+			dirStage(p, r)
+			for _, n := range []string{"t", "u", "v"} {
+				must(os.WriteFile(filepath.Join(p.Root, n+".txt"), []byte(n), 0o644))
+				p.writeStage(n+".yaml", &StageRec{Out: []Art{{Path: n + ".txt"}}})
+			}
+		}),
+		mk("stage remove of two stages at once", []string{"stage", "remove", "t.yaml", "s.yaml"}, nil, func(p *Project, r *rng) {
+			dirStage(p, r)
+			for _, n := range []string{"t", "u"} {
+				must(os.WriteFile(filepath.Join(p.Root, n+".txt"), []byte(n), 0o644))
+				p.writeStage(n+".yaml", &StageRec{Out: []Art{{Path: n + ".txt"}}})
+			}
+			p.dud("", "stage", "add", "t.yaml", "u.yaml")
+		}),
 		mk("commit two-stage pipeline", []string{"commit"}, nil, func(p *Project, r *rng) {
 			must(os.WriteFile(filepath.Join(p.Root, "src.txt"), []byte("source"), 0o644))
 			must(os.WriteFile(filepath.Join(p.Root, "mid.txt"), []byte("middle"), 0o644))
